@@ -94,9 +94,10 @@ specs["C06"] = {"runs": [
     run("filter:Harness_interval_exact", QT, {}, cover=["built"], note="three arbitrary instants (sec in +-2^40, nsec in [0,1e9)) as bit-vectors through the real time.Time methods"),
     run(CMD + "utils:Harness_walk_period", Q, {"R": 2}, cover=["walked"]),
     run(CMD + "utils:Harness_walk_period", T, {"R": 3}, cover=["walked"]),
+    run(CMD + "summary:Harness_summary_day", QT, {}, cover=["ran"], note="concrete supplement: the summary command's real Action (real time.Date/Year/Month/Day) for 6 dates around month/year ends x {today, yesterday, explicit} x time.Local in {UTC, -5h, +13h, -10h}: exactly the headings of that calendar date"),
     run(CMD + "options:Harness_today_and_period", QT, {}, cover=["loaded"], note="real urfave/cli Context and flag.FlagSet code: sub-command period overrides the global one; keywords resolve against --today"),
  ], "assumptions": ["dates within a 40-day window for the walk (any order, repeats allowed)"],
- "outside_claim": ["time-zone independence", "internals of time.Parse/AddDate/Date", "`summary DATE`'s calendar-day window (needs time.Date and zone lookup)", "flag and environment parsing by urfave/cli"],
+ "outside_claim": ["time-zone independence", "internals of time.Parse/AddDate/Date", "flag and environment parsing by urfave/cli"],
  "stubs": [TIME, REALSTD]}
 
 agree_owned = ["totals-row-sum", "period-total", "single-element-rows", "balance-grand-total=period-total", "group-by-food", "quantity", "balance-leaf", "unresolved-"]
